@@ -49,6 +49,8 @@ class C05(Harness):
                ['update', [['a', 2], ['b', 2]]],
                ['update_bad', [['a', 2], ['n', BAD], ['b', 2]]],
                ['update_bad', [['n', BAD], ['a', 2]]],
+               ['update_bad', [['n', BAD], ['e', 3]]],
+               ['update_bad', [['a', 2], ['zz', 1]]],
                ['trigger', ['a']], ['trigger', ['e']], ['raise']]
         if nest < self.MAXNEST:
             ops += [['open', 'batch'], ['open', 'discard'], ['open', 'try'], ['open', 'edit_constant'], ['open_update', [['a', 2]]]]
@@ -96,7 +98,7 @@ class C05(Harness):
                 elif k == 'open' and op[1] == 'try':
                     stack.append(('try', None))
                 elif k == 'update_bad':
-                    o.param.update(**{n: (BAD if v == BAD else world.vals[v]) for n, v in op[1]})
+                    o.param.update(**{n: (BAD if v == BAD else world.vals[v]) for n, v in op[1]})   # 'zz' is not a parameter
                 elif k == 'close':
                     kind, cm = stack.pop()
                     if kind != 'try':
@@ -119,7 +121,7 @@ class C05(Harness):
             if k == 'update_bad' and not before_frames and world.faults_fired == fired0 and isinstance(raised, ValueError):
                 applied = []
                 for n, v in op[1]:
-                    if v == BAD:
+                    if v == BAD or n == 'zz':
                         break
                     applied.append((n, v))
                 for n, v in applied:
